@@ -3,6 +3,7 @@
   (byte level: rollback of the writer; the WAL level — every VFS/MetaStore call as the failing one, further
   acknowledged appends, reopen — is carried by the fault suite's ghost-state monitors on the real code)
 -/
+import RaftWal.Proofs.SegmentChainRepair
 import RaftWal.Proofs.SegmentChainFault
 import RaftWal.Proofs.SegmentFaults
 import RaftWal.Proofs.CrashCorollaries
@@ -119,5 +120,25 @@ theorem chain_atomic_faults_partial (info : SegInfo) (evs : List ChainEvF) (l : 
     ∨ ∃ w file bs, FaultResult info evs w file bs ∧ ChainResult info l w file bs
         ∧ (∀ x ∈ file.drop w.writeOffset, x = 0) :=
   RaftWal.chain_atomic_faults_partial info evs l hp hwf
+
+/-! ### the repair of O21, designed and proved on the model before it is made in the code (NOT tied to /repo: no fact, no
+    correspondence suite speaks about `appendD` yet — it describes the planned change to segment/writer.go)
+
+    `Model/SegmentRepair.lean`: the writer with a `dirty` flag (`WriterD`); `appendD` first zeroes and fsyncs what a failed
+    append left behind the tail (`clearStale`; the step can itself be hit by the fault: fsync fails after the zeros were
+    written, or only a prefix of the zeroing write lands), refuses the append if that fails, then appends as today. -/
+
+/-- with the repair, the three witnesses of O21 no longer fabricate or half-apply anything (kernel-evaluated) -/
+theorem repaired_witnesses : type_of% RaftWal.faultW3_repaired ∧ type_of% RaftWal.faultW1_repaired ∧ type_of% RaftWal.faultW2_repaired :=
+  ⟨RaftWal.faultW3_repaired, RaftWal.faultW1_repaired, RaftWal.faultW2_repaired⟩
+
+/-- **partial** (failed appends that fail on their fsync, any number, anywhere in the chain, several in a row): for the
+    repaired writer the statement that O21 refutes holds — every acknowledged batch present and readable, anything else
+    present is one whole submitted batch, nothing partial, nothing fabricated, zeros behind the tail whenever the flag is
+    clear — or an explicit CRC-32C collision of a torn image. Missing: `.write n` faults (the ghost specification has to
+    admit an earlier failed batch when a later failed append never got past the clearing step: `repairW4_no_result`). -/
+theorem chain_atomic_repaired_sync (info : SegInfo) (evs : List ChainEvF) (hwf : ChainWFF info evs) (hsync : SyncOnly evs) :
+    ChainCollisionD info evs ∨ ∃ s file bs, RepairResult info evs s file bs :=
+  RaftWal.chain_atomic_repaired_sync info evs hwf hsync
 
 end RaftWal.C10
